@@ -764,7 +764,7 @@ def check_C08(ctx):
     if not okb or not okm:
         ctx.violation("C08:build", "the concurrency run could not be built", {"kind": "build", "output": (outb if not okb else outm)[-3000:], "unchecked": "correspondence C08"}, nofail=True)
         return finish(ctx, "proof")
-    args = ["c08", "-sets", "1" if ctx.tier == "quick" else "6", "-bound", "2", "-cap", "150" if ctx.tier == "quick" else "4000", "-random", "20" if ctx.tier == "quick" else "400", "-shards", "2"]
+    args = ["c08", "-sets", "1" if ctx.tier == "quick" else "3", "-bound", "2", "-cap", "150" if ctx.tier == "quick" else "1500", "-random", "20" if ctx.tier == "quick" else "200", "-shards", "2"]
     key = tree_key(("c08", args, ctx.seed))
     cdir = os.path.join(ROOT, "run", "pubcache", key)
     res_path = os.path.join(cdir, "result.json")
@@ -781,15 +781,14 @@ def check_C08(ctx):
             return finish(ctx, "proof")
         t0 = time.time()
         units = sorted((d for d in glob.glob(os.path.join(cdir, "shard_*")) if os.path.isdir(d)), key=lambda d: int(d.rsplit("_", 1)[1]))
-        procs = []
-        for d in units:
+        def eval_unit(d):
             shutil.copyfile(os.path.join(ROOT, "coq", "Run", "ConcCases.v"), os.path.join(d, "cases.v"))
             base = "coqc -Q %s Verif -Q %s Run " % (os.path.join(ROOT, "coq"), d)
-            procs.append(subprocess.Popen("%sobserved.v && %scases.v" % (base, base), shell=True, cwd=d, stdout=subprocess.PIPE, stderr=subprocess.STDOUT))
-        outs = []
-        for prc in procs:
-            o, _ = prc.communicate()
-            outs.append((prc.returncode, o.decode("utf-8", "replace")))
+            prc = subprocess.run("%sobserved.v && %scases.v" % (base, base), shell=True, cwd=d, stdout=subprocess.PIPE, stderr=subprocess.STDOUT)
+            return (prc.returncode, prc.stdout.decode("utf-8", "replace"))
+        from concurrent.futures import ThreadPoolExecutor
+        with ThreadPoolExecutor(max_workers=16 if ctx.tier == "quick" else 8) as ex:   # a thorough request set needs 1-2 GB to evaluate
+            outs = list(ex.map(eval_unit, units))
         rc2 = max([rc for rc, _ in outs] or [1])
         ctx.note("coqc replay+judge (%d request sets in parallel) rc=%d (%.1fs)" % (len(units), rc2, time.time() - t0))
         if rc2 != 0:
